@@ -15,11 +15,14 @@ def termOK : Specs.Term → Bool
 theorem parseItem_render (b : Bool) (i : SpecItem) (r : List Tok) (h : itemOK b i = true) :
     parseItem b (renderItem i ++ r) = some (i, r) := by
   cases i with
-  | mem n s => simp [renderItem, parseItem]
+  | mem n s => cases s <;> simp [renderItem, parseItem]
   | cores n => cases b <;> simp_all [renderItem, parseItem, itemOK]
 
 theorem renderItem_ne_rpar (i : SpecItem) (r : List Tok) : ∀ r', renderItem i ++ r ≠ Tok.rpar :: r' := by
-  intro r'; cases i <;> simp [renderItem]
+  intro r'
+  cases i with
+  | mem n s => cases s <;> simp [renderItem]
+  | cores n => simp [renderItem]
 
 theorem parseItems_render (b : Bool) : ∀ (is : List SpecItem) (fuel : Nat) (r : List Tok),
     is.all (itemOK b) = true → is.length < fuel →
@@ -28,11 +31,9 @@ theorem parseItems_render (b : Bool) : ∀ (is : List SpecItem) (fuel : Nat) (r 
   | [], 0, _, _, h => by simp at h
   | [i], fuel + 1, r, hok, _ => by
     have hi : itemOK b i = true := by simpa using hok
-    simp only [renderItems, parseItems]
-    have hne := renderItem_ne_rpar i (Tok.rpar :: r)
     cases i with
-    | mem n s => simp [renderItem, parseItem]
-    | cores n => cases b <;> simp_all [renderItem, parseItem, itemOK]
+    | mem n s => cases s <;> simp [renderItems, parseItems, renderItem, parseItem]
+    | cores n => cases b <;> simp_all [renderItems, parseItems, renderItem, parseItem, itemOK]
   | i :: j :: is, 0, _, _, h => by simp at h
   | i :: j :: is, fuel + 1, r, hok, hf => by
     have hi : itemOK b i = true := by simp [List.all_cons] at hok; exact hok.1
@@ -48,12 +49,12 @@ theorem parseItems_render (b : Bool) : ∀ (is : List SpecItem) (fuel : Nat) (r 
     simp only [renderItems, parseItems, List.append_assoc, List.cons_append]
     cases i with
     | mem n s =>
-      simp only [renderItem, List.cons_append, List.nil_append, parseItem]
       generalize hg : renderItems (j :: is) ++ Tok.rpar :: r = tl at ih hne
       cases tl with
       | nil => exfalso; simp at hg
       | cons t tl' =>
-        cases t <;> first | (exfalso; exact hne _ rfl) | simp [ih]
+        cases s <;> simp only [renderItem, List.cons_append, List.nil_append, parseItem] <;>
+          cases t <;> first | (exfalso; exact hne _ rfl) | simp [ih]
     | cores n =>
       cases b with
       | true => simp [itemOK] at hi
@@ -70,10 +71,15 @@ theorem renderItems_length (is : List SpecItem) : is.length ≤ (renderItems is)
   | nil => simp [renderItems]
   | cons i is ih =>
     cases is with
-    | nil => cases i <;> simp [renderItems, renderItem]
+    | nil =>
+      cases i with
+      | mem n s => cases s <;> simp [renderItems, renderItem]
+      | cores n => simp [renderItems, renderItem]
     | cons j js =>
       simp only [renderItems, List.length_append, List.length_cons] at ih ⊢
-      cases i <;> simp [renderItem] <;> omega
+      cases i with
+      | mem n s => cases s <;> simp [renderItem] <;> omega
+      | cores n => simp [renderItem]; omega
 
 def noStar : List Tok → Bool
   | Tok.star :: _ => false
